@@ -27,6 +27,11 @@ def dataset(seed):
     for f in FEATS:
         vals, lv = est_gen.gen_quanti(rng, n, rng.choice([0, 0.1, 0.2]), style=rng.choice(['levels', 'jitter', 'uniform', 'spike', 'int']))
         feats[f] = {'kind': 'quanti', 'values': vals}
+    if seed % 4 == 1:
+        # a quantitative feature held as 64-bit integers beyond 2^53 (nanosecond timestamps): its buckets do not depend on
+        # whether a float column is fitted alongside (no common float64 block)
+        base = 1_700_000_000_000_000_000
+        feats['qc'] = {'kind': 'quanti', 'values': [base + (i * 7919) % 100_003 for i in range(n)], 'int64': True}
     for f in QUALI:      # numeric categories: they go through StringDiscretizer (apply_async)
         nlev = rng.randint(2, 5) + (1 if f == 'kb' else 0)      # kb owns a modality ka never sees
         cats = [float(i + 1) for i in range(nlev)] if rng.random() < 0.5 else [i + 1 for i in range(nlev)]
